@@ -14,8 +14,16 @@
   * rtr_mgr_init is modelled *as fixed* (finding F13): on the error path it returns RTR_ERROR and
     produces no configuration (the unfixed code frees an uninitialised pointer there).
 
+  * a group also carries the three timing intervals of its `sockets[0]` (`ivs`): `rtr_mgr_add_group`
+    copies them from the existing groups to the sockets of the new one and `rtr_init` range-checks
+    them, so an add can fail *after* the duplicate-preference check (the sockets' intervals are
+    cache-controlled through End of Data when a socket runs in RTR_INTERVAL_MODE_ACCEPT_ANY: op
+    `setiv`).  The two allocations of `rtr_mgr_add_group` may be refused as well (`failAt`).
+
   Core Lean only (the driver links natively).
 -/
+import RtrModel.Generated.Constants
+
 namespace Rtr.Mgr
 
 /-- `enum rtr_socket_state`, in declaration order (values 0 … 10). -/
@@ -50,10 +58,16 @@ structure Sock where
   thread : Bool := false            -- thread_id != 0
   deriving DecidableEq, Repr, Inhabited
 
+/-- `(refresh_interval, expire_interval, retry_interval)`; what `rtr_mgr_init` is called with in the
+    line protocol (and the defaults of `rtr_mgr_add_group`) -/
+def defaultIvs : Nat × Nat × Nat := (3600, 7200, 600)
+
 structure Group where
   pref : Nat
   status : Status := .closed
   socks : List Sock
+  /-- refresh / expire / retry interval of `sockets[0]` -/
+  ivs : Nat × Nat × Nat := (3600, 7200, 600)
   deriving DecidableEq, Repr, Inhabited
 
 /-- observable effects -/
@@ -264,14 +278,51 @@ def startFirstIfClosed : List Group → List Group × List Ev
   | [] => ([], [])
   | b :: t => if b.status = .closed then let r := b.startSockets; (r.1 :: t, r.2.1) else (b :: t, [])
 
-/-- `rtr_mgr_add_group`; return code -2 = RTR_INVALID_PARAM.
+/-- the interval loop of `rtr_mgr_add_group`: start from 3600 / 7200 / 600 and let every group, in
+    list order, override each component for which its `sockets[0]` holds a non-zero value -/
+def pickIvs : Nat × Nat × Nat → List Group → Nat × Nat × Nat
+  | acc, [] => acc
+  | acc, g :: t =>
+    pickIvs (if g.ivs.1 ≠ 0 then g.ivs.1 else acc.1,
+             if g.ivs.2.1 ≠ 0 then g.ivs.2.1 else acc.2.1,
+             if g.ivs.2.2 ≠ 0 then g.ivs.2.2 else acc.2.2) t
+
+/-- the range check of `rtr_init` (`rtr_check_interval_range(..) == RTR_INSIDE_INTERVAL_RANGE` for
+    refresh, expire and retry) -/
+def ivsOk (iv : Nat × Nat × Nat) : Bool :=
+  decide (Gen.RTR_REFRESH_MIN ≤ iv.1) && decide (iv.1 ≤ Gen.RTR_REFRESH_MAX) &&
+  decide (Gen.RTR_EXPIRATION_MIN ≤ iv.2.1) && decide (iv.2.1 ≤ Gen.RTR_EXPIRATION_MAX) &&
+  decide (Gen.RTR_RETRY_MIN ≤ iv.2.2) && decide (iv.2.2 ≤ Gen.RTR_RETRY_MAX)
+
+/-- Why `rtr_mgr_add_group` fails, in the order of the C function: the preference is in use
+    (RTR_INVALID_PARAM = -2); the allocation of the group is refused (RTR_ERROR = -1);
+    `rtr_mgr_init_sockets` → `rtr_init` rejects the copied intervals (RTR_INVALID_PARAM);
+    the allocation of the list node is refused (RTR_ERROR — as fixed; the unfixed code
+    returns the RTR_SUCCESS left in `err_code` by `rtr_mgr_init_sockets`).
+    `failAt = k > 0`: the k-th `lrtr_malloc` of this call returns NULL.  `none` = the add succeeds. -/
+def addRefusal (gs : List Group) (pref failAt : Nat) : Option Int :=
+  if gs.any (fun g => g.pref == pref) then some (-2)
+  else if failAt = 1 then some (-1)
+  else if ivsOk (pickIvs defaultIvs gs) = false then some (-2)
+  else if failAt = 2 then some (-1)
+  else none
+
+/-- `rtr_mgr_add_group`; return code -2 = RTR_INVALID_PARAM, -1 = RTR_ERROR.  A refused add leaves
+    the configuration as it is and has no effects.  The sockets of the new group are initialised
+    with the picked intervals.
     (The C function does not check `sockets_len`; a socket-less group makes the *next* add_group
     dereference `sockets[0]` of an empty array, so the line protocol only offers `nsocks ≥ 1`.) -/
-def add (gs : List Group) (pref nsocks : Nat) : List Group × List Ev × Int :=
-  if gs.any (fun g => g.pref == pref) then (gs, [], -2)
-  else
-    let r := startFirstIfClosed (sortG (gs ++ [mkGroup pref nsocks]))
+def add (gs : List Group) (pref nsocks : Nat) (failAt : Nat := 0) : List Group × List Ev × Int :=
+  match addRefusal gs pref failAt with
+  | some rc => (gs, [], rc)
+  | none =>
+    let r := startFirstIfClosed (sortG (gs ++ [{ mkGroup pref nsocks with ivs := pickIvs defaultIvs gs }]))
     (r.1, r.2, 0)
+
+/-- what an End of Data PDU does to `sockets[0]` of group `p` when that socket is in
+    RTR_INTERVAL_MODE_ACCEPT_ANY: the three announced values are stored as they are -/
+def setIvs (gs : List Group) (p : Nat) (iv : Nat × Nat × Nat) : List Group :=
+  modG gs p fun g => { g with ivs := iv }
 
 /-- the list without its first group of preference `p` (`tommy_list_remove_existing`) -/
 def eraseG (p : Nat) : List Group → List Group
@@ -309,7 +360,10 @@ def forEachGroup (gs : List Group) : List Group := gs
 
 inductive Op
   | ev (p i : Nat) (st : SockState) (synced : Bool)
-  | add (pref nsocks : Nat)
+  /-- `failAt = k > 0`: the k-th allocation inside this `rtr_mgr_add_group` call is refused -/
+  | add (pref nsocks : Nat) (failAt : Nat := 0)
+  /-- End of Data with these refresh / expire / retry values on `sockets[0]` (ACCEPT_ANY mode) of group `pref` -/
+  | setiv (pref refresh expire retry : Nat)
   | remove (pref : Nat)
   | start
   | stop
@@ -320,7 +374,8 @@ def step (gs : List Group) : Op → List Group × List Ev × Int
   | .ev p i st sy => match event gs p i st sy with
     | some r => (r.1, r.2, 0)
     | none => (gs, [], 0)
-  | .add p n => add gs p n
+  | .add p n k => add gs p n k
+  | .setiv p a b c => (setIvs gs p (a, b, c), [], 0)
   | .remove p => remove gs p
   | .start => start gs
   | .stop => let r := stop gs; (r.1, r.2, 0)
